@@ -277,6 +277,36 @@ Definition atom_at (a : atom) : bool :=
   | _ => false
   end.
 
+(* ---------------------------------------------------------------------- footprint of a call (simulate): which operations
+   on the MODEL'S OWN state and on the generators the source contains, without the data-dependent loop structure *)
+Section Foot.
+  Variable V : Type.
+  Notation ev := (ev V).
+
+  Definition gen_eqb (g g' : gen) : bool :=
+    match g, g' with GPy, GPy | GNp, GNp | GTorch, GTorch => true | _, _ => false end.
+
+  (* the events on the MODEL'S OWN state / the generators that a footprint atom stands for (any instance, any individual) *)
+  Definition atom_covers (I : inst V) (a : atom) (e : ev) : bool :=
+    match a, e with
+    | ASeed, ESeed _ _ => true
+    | AGet OModel g, EGet Cur n => existsb (Nat.eqb n) (vars V I 0 g)
+    | APut OModel g _, ESet Cur n _ => existsb (Nat.eqb n) (vars V I 0 g)
+    | APut OModel g _, ESetIf Cur n _ => existsb (Nat.eqb n) (vars V I 0 g)
+    | ADraws _ g, EDraw g' _ => gen_eqb g g'
+    | ASetModel _, EReplace _ => true
+    | _, _ => false
+    end.
+
+  (* a script stays within a footprint: every event addresses a state created by the call (clones of anything allowed)
+     or is covered by an atom of the footprint *)
+  Definition within (I : inst V) (foot : list atom) (script : list ev) : bool :=
+    forallb (fun e => untouched_ev V e || existsb (fun a => atom_covers I a e) foot) script.
+
+  Definition readonly_atom (a : atom) : bool :=
+    match a with ASeed | AGet _ _ | ADraws _ _ => true | _ => false end.
+End Foot.
+
 (* how the algorithm obtains ITS parameters from the caller's settings (algo/base.py, BaseAlgorithm.__init__) *)
 Inductive copy_kind := CopyDeep | CopyShallow | CopyAlias.
 Definition copy_of (k : copy_kind) (h : heap) (a : nat) : heap * nat :=
